@@ -275,6 +275,18 @@ fn mutate_sig(sig: &[u8], m: &Value) -> Vec<u8> {
         "trunc" => s.truncate(get_i64(m, "n") as usize),
         "append" => s.extend_from_slice(&get_bytes(m, "b")),
         "empty" => s.clear(),
+        "set" => {
+            let p = get_i64(m, "pos") as usize;
+            if p < s.len() {
+                s[p] = get_i64(m, "c") as u8;
+            }
+        }
+        "fill" => {
+            let c = get_i64(m, "c") as u8;
+            for x in s.iter_mut() {
+                *x = c;
+            }
+        }
         _ => {}
     }
     s
